@@ -186,6 +186,10 @@ class Exec:
             raise InternalError("impl driver: %r on %s" % (a, first))
         self.present, self.top, self.length = [], (0, 0), 0
         self.keys = {}
+        self.code_broken = False      # the Code model lost the implementation in this history: go on with the oracles only
+        self.accepted_max = {}        # reply-level oracle: greatest ID accepted so far (None = the stream object, else per key)
+        self.prev_mut = "none"        # class of the previous mutating operation (input-class statistics)
+        self.prev_mut_key = {}        # the same per key at command level
 
     def record(self, kind, what, line, impl, code, spec, extra=None):
         det = {"level": self.level, "ops": list(self.trace), "failing_op": line, "impl": impl, "code": code, "spec": spec, "why": what}
@@ -195,6 +199,24 @@ class Exec:
             self.disagreements.append(det)
         else:
             self.oracle_failures.append((kind, det))
+
+    def accepted(self, key, i, line, extra=None):
+        """The property judged on the replies alone: an accepted XADD returned `i`; every accepted ID must be
+        greater than every ID accepted before (for this stream), whatever was deleted or trimmed since."""
+        m = self.accepted_max.get(key)
+        if m is not None and i <= m:
+            self.record("monotone", "accepted XADD returned %s, not greater than %s which was accepted before" % (id_text(i), id_text(m)),
+                        line, id_text(i), None, "> " + id_text(m), extra)
+            return False
+        self.accepted_max[key] = i
+        return True
+
+    def code_differs(self, what, line, impl, code, spec, extra=None):
+        """impl != Code model: recorded once per history; afterwards the history goes on under the oracles only"""
+        if not self.code_broken:
+            self.record("disagree", what, line, impl, code, spec, extra)
+            self.rep.count("history.code-model-lost")
+        self.code_broken = True
 
     # -- stream level ------------------------------------------------------
     def raw(self, line, tag=("", ), tmpl=None):
@@ -229,15 +251,20 @@ class Exec:
             a_cmp = "id %d %d" % (ms, seq)
             extra = {"prev_top": id_text(self.top), "returned": id_text((ms, seq)), "clock_bracket": [t0, t1]}
             ok_oracle = s == "ok"
+            ahead = "top-ahead" if self.top[0] > t1 else "top-at-clock" if self.top[0] >= t0 - 1 else "top-behind"
+            rep.count("class.auto.%s.after-%s" % (ahead, self.prev_mut))
+            rep.nontrivial(("auto-class", ahead, self.prev_mut, self.top[1] >= U64 - 1, self.top[0] >= U64 - 1))
             if self.q[1] and self.top == (U64, U64):
                 # repaired tree, top of the ID space: StorageEngine::xadd refuses before Stream::add_auto is called, so
                 # this call is not reachable by a client (the refusal is exercised at command level).  The generator
                 # must still be total: it saturates.  Compared with the Code model only; the history ends here.
                 rep.count("auto.saturated-unreachable")
                 rep.nontrivial(("auto", "saturated"))
-                if a_cmp != c:
-                    self.record("disagree", "auto at the top of the ID space: implementation %s, Code model %s" % (a_cmp, c), line, a_cmp, c, s, extra)
+                if a_cmp != c and not self.code_broken:
+                    self.code_differs("auto at the top of the ID space: implementation %s, Code model %s" % (a_cmp, c), line, a_cmp, c, s, extra)
                 raise Fail()
+            if not self.accepted(None, (ms, seq), line, extra):
+                ok_oracle = False
             # the clock: a new millisecond must lie in the bracket of the call; staying on the old one
             # is legitimate only when the clock has not passed it (1 ms cache lag; gross misses only)
             miss = 0
@@ -248,10 +275,10 @@ class Exec:
                     miss = max(t0 - 1 - ms, ms - t1)
             elif ms == self.top[0] and self.top[0] < t0 - 1:
                 miss = t0 - 1 - self.top[0]
-            if miss:
+            if miss and not self.code_broken:
                 self.bracket_miss += 1
                 if miss > 1000:
-                    self.record("disagree", "auto ID ignores the clock: returned %d-%d, previous top %s, wall clock [%d,%d]" % (ms, seq, id_text(self.top), t0, t1), line, a, c, s, extra)
+                    self.code_differs("auto ID ignores the clock: returned %d-%d, previous top %s, wall clock [%d,%d]" % (ms, seq, id_text(self.top), t0, t1), line, a, c, s, extra)
             branch = "new-ms" if ms > self.top[0] else "same-ms" if ms == self.top[0] else "older-ms"
             rep.nontrivial(("auto", branch, seq == 0, self.top[1] == U64, ok_oracle) + tuple(tag))
             rep.count("auto." + branch)
@@ -269,18 +296,29 @@ class Exec:
                 ok_oracle = ai[0] == si[0] and ai[2] == si[2]
             else:
                 ok_oracle = a == s
+        if op == "addid":
+            w = line.split()
+            i = (int(w[1]), int(w[2]))
+            if a_cmp == "ok" and not self.accepted(None, i, line):
+                ok_oracle = False
+            self.prev_mut = ("refused-" + ("zero" if i == (0, 0) else "equal" if i == self.top else "lower-seq" if i[0] == self.top[0] else "lower-ms")) if a_cmp == "refused" else "explicit"
+        elif op == "auto":
+            self.prev_mut = "auto"
+        elif op in ("del", "trimc", "trimmin"):
+            self.prev_mut = "removal" if a_cmp != "0" else self.prev_mut
         if not ok_oracle:
             self.record(op, "%s: implementation answers %s, the property prescribes %s" % (op, a_cmp[:200], s[:200]), line, a_cmp, c, s, dict(extra, present=[id_text(i) for i in self.present[:8]], tmpl=ser_tmpl(tmpl)))
-        if a_cmp != c:
-            self.record("disagree", "%s: implementation %s, Code model %s" % (op, a_cmp[:200], c[:200]), line, a_cmp, c, s, dict(extra, tmpl=ser_tmpl(tmpl)))
-        if op in MUTATING and (not ok_oracle or a_cmp != c):
+        if a_cmp != c and not self.code_broken:
+            self.code_differs("%s: implementation %s, Code model %s" % (op, a_cmp[:200], c[:200]), line, a_cmp, c, s, dict(extra, tmpl=ser_tmpl(tmpl)))
+        # the history ends only where the ORACLE state and the implementation part (a failed mutation): a lost Code model
+        # is no reason to stop searching for an input on which the property itself fails
+        if (op in MUTATING or op == "dump") and not ok_oracle:
             raise Fail()
         if op == "dump":
-            if not ok_oracle or a_cmp != c:
-                raise Fail()
             w = a.split(" ", 2)
             self.length = int(w[0][4:])
-            t = w[1][5:].split("-")
+            # the top = the greatest ID ever added according to the oracle (the implementation's atomics are Code-level detail)
+            t = s.split(" ", 2)[1][4:].split("-")
             self.top = (int(t[0]), int(t[1]))
             self.present = [i for i, _ in parse_entries(w[2].split(" ")[0])]
         return a_cmp
@@ -318,12 +356,36 @@ class Exec:
         rep.nontrivial(("cmd", name, a.split(" ")[0], min(a.count(";") + (0 if a.endswith(".") else 1), 4) if a.startswith(("ents", "streams")) else 0, ok_oracle) + tuple(tag))
         if a.startswith("errprop"):
             rep.count("cmd.errprop")
+        if name == "XADD" and len(args) > 2:
+            key = args[1]
+            old_top = self.accepted_max.get(key) or (0, 0)
+            star = args[2] == b"*"
+            if a.startswith("bulk "):
+                m = re.fullmatch(r"(\d+)-(\d+)", unhx(a.split()[1]).decode("ascii", "replace"))
+                if m and not self.accepted(key, (int(m.group(1)), int(m.group(2))), line, dict(extra, args=[x.decode("latin1") for x in args])):
+                    ok_oracle = False
+            if star:
+                ahead = "top-ahead" if old_top[0] > t1 else "top-at-clock" if old_top[0] >= t0 - 1 else "top-behind"
+                prev = self.prev_mut_key.get(key, "none")
+                rep.count("class.xadd-star.%s.after-%s" % (ahead, prev))
+                rep.nontrivial(("xadd-star-class", ahead, prev, old_top[1] >= U64 - 1, old_top[0] >= U64 - 1))
+            if star:
+                self.prev_mut_key[key] = "auto"
+            elif a.startswith("bulk "):
+                self.prev_mut_key[key] = "explicit"
+            else:
+                m = re.fullmatch(rb"(\d+)-(\d+)", args[2])
+                i = (int(m.group(1)), int(m.group(2))) if m else None
+                self.prev_mut_key[key] = "refused-" + ("malformed" if i is None or i[0] > U64 or i[1] > U64 else "zero" if i == (0, 0) else "equal" if i == old_top else
+                                                       "lower-seq" if i[0] == old_top[0] else "lower-ms" if i < old_top else "other")
+        elif name in ("XDEL", "XTRIM") and len(args) > 1 and a.startswith("int ") and a != "int 0":
+            self.prev_mut_key[args[1]] = "removal"
         if not ok_oracle:
             self.record("cmd:" + name, "%s: implementation replies %s, the property prescribes %s" % (name, a[:200], s[:200]), line, a, c, s,
                         dict(extra, args=[x.decode("latin1") for x in args]))
-        if a != c:
-            self.record("disagree", "%s: implementation %s, Code model %s" % (name, a[:200], c[:200]), line, a, c, s, extra)
-        if name in ("XADD", "XDEL", "XTRIM") and (not ok_oracle or a != c):
+        if a != c and not self.code_broken:
+            self.code_differs("%s: implementation %s, Code model %s" % (name, a[:200], c[:200]), line, a, c, s, extra)
+        if name in ("XADD", "XDEL", "XTRIM") and not ok_oracle:
             raise Fail()
         return a
 
@@ -414,15 +476,34 @@ def run_template(ex, t):
         raise ValueError(t)
 
 
+PROBE_STREAM = [("auto", [], "probe"), ("auto", [(b"f", b"v")], "probe"), ("range", "min", "max", None, 0), ("after", "min", None), ("len",),
+                ("addid", "top:0:0", []), ("auto", [], "probe"), ("addid", "top:0:1", []), ("auto", [], "probe"), ("del", ["p:-1:0:0"]), ("auto", [], "probe"),
+                ("after", "top:0:-1", None), ("range", "min", "max", None, 1), ("trimc", "abs:0"), ("auto", [], "probe"), ("addid", "top:0:0", []), ("len",)]
+
+
 def run_history(ex, templates, level="stream"):
-    """fresh object, then the templates; stops where implementation and model part"""
+    """fresh object, then the templates; stops where implementation and ORACLE part.  When only the Code model lost the
+    implementation (state the model does not predict, e.g. the atomics), the history goes on under the oracles, and a
+    probing suffix follows: every way of adding and reading, so that a hidden state difference gets its chance to
+    surface as a reply the property forbids."""
     ex.begin(level)
+    n0 = len(ex.oracle_failures)
     try:
         for t in templates:
             if level == "stream":
                 run_template(ex, t)
             else:
                 run_cmd_template(ex, t)
+        if ex.code_broken and len(ex.oracle_failures) == n0:
+            ex.rep.count("history.probed-after-model-loss")
+            if level == "stream":
+                for t in PROBE_STREAM:
+                    run_template(ex, t)
+            else:
+                for key in sorted(set(list(ex.keys) + [k for k in ex.accepted_max if k is not None])):
+                    for args in ([b"XADD", key, b"*", b"f", b"v"], [b"XRANGE", key, b"-", b"+"], [b"XLEN", key], [b"XADD", key, b"*", b"f", b"v"],
+                                 [b"XREAD", b"STREAMS", key, b"0"], [b"XREVRANGE", key, b"+", b"-"]):
+                        ex.cmd(args, tag=("probe",))
     except Fail:
         return False
     return True
@@ -534,6 +615,35 @@ def gen_history(r, kind):
                 ts.append(("auto", gen_fields(r), "emptied"))
             else:
                 ts.append(gen_mut(r, "auto"))
+    elif kind == "ahead":
+        # a stream whose top is ahead of the wall clock (by milliseconds, by an hour, by ages, at the u64 border); then refused
+        # explicit adds of every kind interleaved with `*`, removals of the top in between, accepted explicit adds, reads
+        ms = r.choice(["now:200", "now:3600000", "now:3600000", "now:1000000000000", "abs:%d" % U64, "abs:%d" % (U64 - 1)])
+        seq = r.choice([0, 9, 9, U64 - 6, U64 - 1])
+        if r.chance(1, 3):
+            ts.append(("auto", gen_fields(r), "before-ahead"))
+        ts.append(("addid", "%s:%d" % (ms, seq), gen_fields(r)))
+        refused = ["top:0:0", "top:0:-1", "top:0:-5", "top:-1:0", "top:-1:7", "top:-60000:4", "top:-100:%d" % U64, "now:0:0", "now:1:3", "now:-1000:3",
+                   "abs:0:0", "abs:0:1", "abs:5:5", "p:0:0:0", "p:0:0:-1"]
+        for _ in range(r.range(6, 18)):
+            k = r.below(12)
+            if k < 4:
+                ts.append(("addid", r.choice(refused), gen_fields(r)))
+                if r.chance(2, 3):
+                    ts.append(("auto", gen_fields(r), "after-refused"))
+            elif k < 6:
+                for _ in range(r.range(1, 3)):
+                    ts.append(("auto", gen_fields(r), "ahead"))
+            elif k < 8:
+                ts.append(r.choice([("del", ["p:-1:0:0"]), ("del", ["p:-1:0:0", "p:0:0:0"]), ("trimc", "abs:0"), ("trimc", "len:-1"), ("trimmin", "top:0:1"), ("trimmin", "top:0:0")]))
+                if r.chance(1, 2):
+                    ts.append(("addid", r.choice(refused), gen_fields(r)))
+                ts.append(("auto", gen_fields(r), "after-removal"))
+            elif k < 9:
+                ts.append(("addid", r.choice(["top:0:1", "top:1:0", "top:0:3"]), gen_fields(r)))
+            else:
+                ts.append(gen_read(r, "auto"))
+        ts.append(("range", "min", "max", None, 0))
     elif kind == "wrap":
         room = r.range(0, 3)
         ms = r.choice(["now:1000000000", "abs:%d" % U64, "now:5000"])
@@ -587,6 +697,13 @@ def run_cmd_template(ex, t):
             top = ex.keys.get(key, ([], (0, 0)))[1]
             ms = U64 if t[4] == "max" else clamp(max(top[0], int(time.time() * 1000)) + 10 ** 9)
             idt = id_text((ms, U64)).encode()
+        if t[3] == "rel":
+            top = ex.keys.get(key, ([], (0, 0)))[1]
+            idt = id_text((clamp(top[0] + t[4][0]), clamp(top[1] + t[4][1]))).encode()
+        elif t[3] == "future":
+            idt = id_text((clamp(int(time.time() * 1000) + t[4][0]) if t[4][0] is not None else U64, t[4][1])).encode()
+        elif t[3] == "text":
+            idt = t[4]
         if idt is None:
             top = ex.keys.get(key, ([], (0, 0)))[1]
             idt = id_text((clamp(top[0] + t[4][0]), clamp(top[1] + t[4][1]) if t[4][0] == 0 else t[4][1])).encode()
@@ -611,6 +728,10 @@ def run_cmd_template(ex, t):
         keys = t[3]
         args = [b"XREAD"] + t[4] + [b"STREAMS"] + keys + [cmd_idtext(r, ex, k, (b"$", b"0", b"0-0")) for k in keys]
         ex.cmd(args, tag=(len(keys),))
+    elif kind == "xdeltop":
+        present = ex.keys.get(key, ([], (0, 0)))[0]
+        ex.cmd([b"XDEL", key, id_text(present[-1]).encode() if present else b"1-1"])
+        refresh_key(ex, key)
     elif kind == "xlen":
         ex.cmd([b"XLEN", key])
     elif kind == "xtrim":
@@ -667,6 +788,42 @@ def gen_cmd_history(r, hist_no):
                                                   [b"XREVRANGE", key, b"+"], [b"XLEN"], [b"XLEN", key, key], [b"XREAD", b"STREAMS", key], [b"XREAD", b"COUNT", b"1", b"STREAMS"],
                                                   [b"XREAD", b"STREAMS", key, key, b"0"], [b"XDEL", key], [b"XTRIM", key, b"MAXLEN"], [b"xadd", key, b"*", b"f", b"v"],
                                                   [b"XREAD", b"STREAMS", key, b"0"], [b"XREAD", b"COUNT", b"1", b"COUNT", b"2", b"STREAMS", key, b"0"]])))
+    return ts
+
+
+def gen_cmd_ahead_history(r, hist_no):
+    """through the handlers: a stream whose top is ahead of the clock, refused explicit XADDs of every kind (equal, lower
+    sequence, lower millisecond, at/behind the clock, 0-0, malformed or overflowing text) interleaved with XADD *, with
+    XDEL / XTRIM of the top in between"""
+    key = b"a%d" % hist_no
+    ts = []
+    sub = r.fork("cmd")
+    if r.chance(1, 3):
+        ts.append(("xadd", sub, key, "*", None, gen_fields(r)))
+    ts.append(("xadd", sub, key, "future", r.choice([(200, 0), (3600000, 9), (3600000, 9), (10 ** 12, U64 - 6), (None, 3), (None, U64 - 1), (86400000, U64 - 1)]), gen_fields(r)))
+    refused = [("rel", (0, 0)), ("rel", (0, -1)), ("rel", (0, -5)), ("rel", (-1, 0)), ("rel", (-1, 7)), ("rel", (-60000, 4)), ("future", (0, 0)), ("future", (1, 3)),
+               ("future", (-1000, 3)), ("text", b"0-0"), ("text", b"0-1"), ("text", b"5-5")] + [("text", t) for t in ID_TEXTS_BAD]
+    for _ in range(r.range(6, 16)):
+        k = r.below(12)
+        if k < 5:
+            m, a = r.choice(refused)
+            ts.append(("xadd", sub, key, m, a, gen_fields(r)))
+            if r.chance(2, 3):
+                ts.append(("xadd", sub, key, "*", None, gen_fields(r)))
+        elif k < 7:
+            ts.append(("xadd", sub, key, "*", None, gen_fields(r)))
+        elif k < 9:
+            ts.append(r.choice([("xdeltop", sub, key), ("xtrim", sub, key, [b"MAXLEN", b"0"]), ("xtrim", sub, key, [b"MAXLEN", b"1"])]))
+            if r.chance(1, 2):
+                m, a = r.choice(refused)
+                ts.append(("xadd", sub, key, m, a, gen_fields(r)))
+            ts.append(("xadd", sub, key, "*", None, gen_fields(r)))
+        elif k < 10:
+            ts.append(("xadd", sub, key, "rel", r.choice([(0, 1), (1, 0), (0, 3)]), gen_fields(r)))
+        elif k < 11:
+            ts.append(("xread", sub, key, [key], r.choice([[], [b"COUNT", b"2"]])))
+        else:
+            ts.append((r.choice(["xrange", "xrevrange"]), sub, key, r.choice(COUNT_CLAUSES[:6])))
     return ts
 
 
@@ -899,6 +1056,7 @@ def verdict(rep, ex, findings, ok, log, errs, hist_templates=None, ex_factory=No
                     hits = [d for k, d in ex2.oracle_failures if k == kind]
                     if hits:
                         det.update({"ops": hits[0]["ops"], "failing_op": hits[0]["failing_op"], "impl": hits[0]["impl"], "code": hits[0]["code"], "spec": hits[0]["spec"],
+                                    "why": hits[0]["why"], "why_before_shrinking": det["why"],
                                     "templates": [ser_tmpl(t) for t in small], "shrunk": True})
                 finally:
                     ex2.close()
@@ -920,7 +1078,7 @@ def verdict(rep, ex, findings, ok, log, errs, hist_templates=None, ex_factory=No
 def main(tier, seed):
     rep = Report("C15", tier, seed)
     rep.rule = ("histories of templates over one Stream object (kinds: small explicit IDs with dense reads; bursts of *; explicit ID ahead of the "
-                "clock then *; emptied by XDEL/XTRIM then reads and adds; sequence numbers at 2^64-1) with bounds below/on/between/above the present IDs, "
+                "clock then *; top ahead of the clock (by ms / an hour / ages / at the u64 border) with refused explicit adds of every kind interleaved with *, and removals of the top; emptied by XDEL/XTRIM then reads and adds; sequence numbers at 2^64-1) with bounds below/on/between/above the present IDs, "
                 "COUNT none/0/1/n/2^64-1, both directions, reversed bounds; the whole state (atomics, all entries through range and range_after) "
                 "compared after every mutation; the same through handle_x* over a StorageEngine with well-formed, malformed and overflowing ID/COUNT/MAXLEN "
                 "texts; distinct = (operation, bound classes, COUNT class, direction, result size, outcome) tuples reached")
@@ -945,8 +1103,8 @@ def main(tier, seed):
         corpus(ex)
         r = Rng(seed)
         scale = 15 if tier == "thorough" else 1
-        kinds = ["small"] * 5 + ["auto"] * 3 + ["future"] * 2 + ["emptied"] * 2 + ["wrap"]
-        for h in range(260 * scale):
+        kinds = ["small"] * 5 + ["auto"] * 3 + ["future"] * 2 + ["emptied"] * 2 + ["wrap"] + ["ahead"] * 3
+        for h in range(320 * scale):
             kind = kinds[h % len(kinds)]
             ts = gen_history(r.fork("h%d" % h), kind)
             hist_templates[h] = ts
@@ -958,10 +1116,11 @@ def main(tier, seed):
             if h < 4:
                 rep.sample({"history": kind, "ops": ex.trace[:12]})
         exhaustive_small(ex)
-        for h in range(120 * scale):
-            ts = gen_cmd_history(r.fork("c%d" % h), h)
+        for h in range(160 * scale):
+            ahead = h % 4 == 3
+            ts = gen_cmd_ahead_history(r.fork("c%d" % h), h) if ahead else gen_cmd_history(r.fork("c%d" % h), h)
             run_history(ex, ts, level="cmd")
-            rep.count("history.cmd")
+            rep.count("history.cmd-ahead" if ahead else "history.cmd")
             if h < 2:
                 rep.sample({"history": "cmd", "ops": [" ".join(unhx(x).decode("latin1") for x in l.split()[1:]) for l in ex.trace[:10]]})
         if tier == "thorough":
